@@ -44,6 +44,7 @@ def plan(tier, seed):
             jobs.append({'fn': 'dwt_pr', 'cfg': {'dim': 2, 'mode': m, 'wave': wv}, 'grid': {'H': [7, 16], 'W': [9, 12], 'J': [1, 2], 'Lc2': l2}})
     return {
         'groups': gs,
+        'lean_lemmas': ['pr_2d', 'pr_2d_bands', 'pr_levels'],
         'native': [('oracle_dwt.py', [seed], 'oracle: spec functions vs pywt.dwt/idwt'),
                    ('bounded.py', [write_jobs('C02', jobs), seed], 'bounded: real inverse(forward(x)) vs x and vs PyWavelets own reconstruction error')],
         'level': 'proof', 'trusted_base': TRUSTED,
